@@ -28,10 +28,39 @@ var values = map[string]struct {
 	"1": {cty.NumberIntVal(1), `1`},
 	"s": {cty.StringVal("s"), `"s"`},
 	"l": {cty.ListVal([]cty.Value{cty.StringVal("p"), cty.StringVal("q")}), `["p","q"]`},
+	"t": {cty.True, `true`},
+}
+
+// callerTokens are the Tokens values the caller of the API holds during one
+// history: one value per raw token id and one for the unstructured comment,
+// made when first needed and then passed again to every later operation that
+// uses the same id. hclwrite does not say that a Tokens value may be handed
+// over only once (SetAttributeRaw / AppendUnstructuredTokens take the slice,
+// the *Token elements stay shared with the caller), so attributes given the
+// same Tokens value are as independent of each other as any two attributes.
+type callerTokens map[string]hclwrite.Tokens
+
+func (ct callerTokens) get(id string, mk func(string) hclwrite.Tokens) hclwrite.Tokens {
+	if t, ok := ct[id]; ok {
+		return t
+	}
+	t := mk(id)
+	ct[id] = t
+	return t
 }
 
 func rawTokens(id string) hclwrite.Tokens {
 	switch id {
+	case "7":
+		return hclwrite.Tokens{{Type: hclsyntax.TokenNumberLit, Bytes: []byte("7")}}
+	case "null":
+		return hclwrite.Tokens{{Type: hclsyntax.TokenIdent, Bytes: []byte("null")}}
+	case `"q"`:
+		return hclwrite.Tokens{
+			{Type: hclsyntax.TokenOQuote, Bytes: []byte(`"`)},
+			{Type: hclsyntax.TokenQuotedLit, Bytes: []byte("q")},
+			{Type: hclsyntax.TokenCQuote, Bytes: []byte(`"`)},
+		}
 	case "x.y":
 		return hclwrite.Tokens{
 			{Type: hclsyntax.TokenIdent, Bytes: []byte("x")},
@@ -52,7 +81,7 @@ func traversalVW() hcl.Traversal {
 	return hcl.Traversal{hcl.TraverseRoot{Name: "v"}, hcl.TraverseAttr{Name: "w"}}
 }
 
-func unstructuredComment() hclwrite.Tokens {
+func unstructuredComment(string) hclwrite.Tokens {
 	return hclwrite.Tokens{{Type: hclsyntax.TokenComment, Bytes: []byte("# u\n")}}
 }
 
@@ -222,7 +251,7 @@ type realResult struct {
 // execReal performs op on the real file. p was prepared on the model state
 // *before* the operation; the real objects are reached through the handles
 // stored in the model items.
-func execReal(f *hclwrite.File, p prep, op Op) realResult {
+func execReal(f *hclwrite.File, ct callerTokens, p prep, op Op) realResult {
 	var r realResult
 	rb := f.Body()
 	if n := len(p.chain); n > 0 {
@@ -232,7 +261,14 @@ func execReal(f *hclwrite.File, p prep, op Op) realResult {
 	case "setv":
 		rb.SetAttributeValue(op.N, values[op.V].v)
 	case "setraw":
-		rb.SetAttributeRaw(op.N, rawTokens(op.V))
+		rb.SetAttributeRaw(op.N, ct.get(op.V, rawTokens))
+	case "copyraw":
+		// the expression of another attribute of the same body, copied the
+		// way the API offers it: by its tokens
+		rb.SetAttributeRaw(op.N, rb.GetAttribute(op.N2).Expr().BuildTokens(nil))
+	case "copyroot":
+		// the same with an attribute of the root body as the source
+		rb.SetAttributeRaw(op.N, f.Body().GetAttribute(op.N2).Expr().BuildTokens(nil))
 	case "settrav":
 		rb.SetAttributeTraversal(op.N, traversalVW())
 	case "ren":
@@ -267,7 +303,7 @@ func execReal(f *hclwrite.File, p prep, op Op) realResult {
 	case "nl":
 		rb.AppendNewline()
 	case "unstruct":
-		rb.AppendUnstructuredTokens(unstructuredComment())
+		rb.AppendUnstructuredTokens(ct.get("#u", unstructuredComment))
 	}
 	return r
 }
@@ -364,6 +400,51 @@ func diffBody(want, got *refwriter.Body, where string) *failure {
 				}
 				return failf("untouched", "%s %s was never targeted by an edit but its tokens/comments changed: now %q, originally %q (spaces removed)", where, name, g.Orig, w.Orig)
 			}
+		}
+	}
+	return nil
+}
+
+// diffComments applies the comment clause to a serialised file whose items
+// already agree with the model: per body, the comments of the initial file
+// that are still due (refwriter.Body.Comments: all but those attached to an
+// item that was removed since) occur in the body, in their original order.
+// Other comments may occur between them (comments of removed items that the
+// implementation chose to keep, appended unstructured comments).
+func diffComments(want, got *refwriter.Body, where string) *failure {
+	due, have := want.Comments(), got.Comments()
+	j := 0
+	for _, c := range due {
+		for j < len(have) && have[j].Text != c.Text {
+			j++
+		}
+		if j < len(have) {
+			j++
+			continue
+		}
+		var texts []string
+		present := false
+		for _, h := range have {
+			texts = append(texts, h.Text)
+			present = present || h.Text == c.Text
+		}
+		what := "free-standing comment"
+		if c.Kind != "free" {
+			what = c.Kind + " comment of " + c.Of + " (which is still there)"
+		}
+		if present {
+			return failf("comment-order", "%s: %s %q of the initial file no longer follows the comments it followed initially: the body now has the comments %q", where, what, c.Text, texts)
+		}
+		clause := c.Kind + "-comment-lost"
+		return failf(clause, "%s: %s %q of the initial file is gone although nothing it belongs to was removed: the body now has the comments %q", where, what, c.Text, texts)
+	}
+	wb, gb := want.Blocks(), got.Blocks()
+	for i := range wb {
+		if i >= len(gb) {
+			break
+		}
+		if fl := diffComments(wb[i].Body, gb[i].Body, where+"/"+wb[i].Type); fl != nil {
+			return fl
 		}
 	}
 	return nil
@@ -495,7 +576,11 @@ func checkOutput(f *hclwrite.File, m *refwriter.File) (out []byte, fl *failure) 
 	if diags.HasErrors() {
 		return out, failf("unparseable", "serialised file does not parse: %s\n--- output\n%s", diags.Error(), out)
 	}
-	if dfl := diffBody(m.Root, got, "root"); dfl != nil {
+	dfl := diffBody(m.Root, got, "root")
+	if dfl == nil {
+		dfl = diffComments(m.Root, got, "root")
+	}
+	if dfl != nil {
 		dfl.msg += fmt.Sprintf("\n--- output\n%s", out)
 		return out, dfl
 	}
@@ -577,6 +662,7 @@ func replay(d Data, everyStep bool) engine.Outcome {
 	if fl := checkAccessors(f, m, true, len(d.Ops) == 0 || everyStep); fl != nil {
 		return engine.Fail("c12.init."+fl.clause, "initial file %s: %s", init.name, fl.msg)
 	}
+	ct := callerTokens{}
 	var out []byte
 	if len(d.Ops) == 0 {
 		var fl *failure
@@ -600,7 +686,7 @@ func replay(d Data, everyStep bool) engine.Outcome {
 			return sb.String()
 		}
 		var rr realResult
-		pan := call(func() { rr = execReal(f, p, op) })
+		pan := call(func() { rr = execReal(f, ct, p, op) })
 		if !everyStep {
 			transitions.Add(1)
 		}
